@@ -92,3 +92,200 @@ def fast_overlap_free(rows: list[list[int]]) -> bool:
                     return False
             active.append(r)
     return True
+
+
+# ----------------------------------------------------------------------------
+# extended feasibility: the wrapper-level clauses of C04
+# ----------------------------------------------------------------------------
+
+def infeasibility_ext(W: int, H: int, items: list[list[int]],
+                      rows: Any, n_bins: Any, dtype: str,
+                      same_instance: bool = True,
+                      is_packing: bool = True) -> list[str]:
+    """:func:`infeasibility` plus the clauses about the container object.
+
+    ``rows`` may be any nested list (wrong shapes are reported as ``shape``),
+    ``dtype`` is the numpy name of the array's element type. Additional clause
+    tags: type (not a packing object), instance (belongs to another instance
+    object), dtype (element type differs from the instance's storage type).
+    """
+    why: list[str] = []
+    if not is_packing:
+        why.append("type: not a Packing object")
+    if not same_instance:
+        why.append("instance: packing belongs to another instance object")
+    if dtype != expected_dtype(W, H, items):
+        why.append(f"dtype: {dtype} instead of "
+                   f"{expected_dtype(W, H, items)}")
+    n_items = sum(m for _w, _h, m in items)
+    ok_shape = isinstance(rows, list) and len(rows) == n_items and all(
+        isinstance(r, list) and len(r) == 6
+        and all(type(v) is int for v in r) for r in rows)
+    if not ok_shape:
+        why.append("shape: not an (n_items, 6) integer matrix")
+        return why
+    return why + infeasibility(W, H, items, rows, n_bins)
+
+
+# ----------------------------------------------------------------------------
+# executable model of the documented improved-bottom-left rule (C14)
+# ----------------------------------------------------------------------------
+
+def _drop(placed: list[tuple[int, int, int, int]], W: int, H: int, w: int,
+          h: int, stats: dict[str, int]) -> tuple[int, int] | None:
+    """Let a ``w x h`` box fall into a bin holding the rectangles ``placed``.
+
+    The box starts with its right edge at the right wall and its bottom edge
+    on the top line of the bin. Repeated until nothing moves: (1) fall
+    straight down until the floor or the top edge of a box beneath is hit;
+    only if it cannot fall, (2) slide left until the wall or a box at the same
+    height is hit, but stop as soon as the right edge of the moving box
+    reaches the left end of a box it is resting on (there it may fall again).
+    Returns the final (x0, y0) or None if the box does not end up inside.
+    """
+    x0, y0 = W - w, H
+    while True:
+        x1, y1 = x0 + w, y0 + h
+        # (1) fall: boxes beneath = sharing a column with us, not above us
+        floor = 0
+        for (a0, b0, a1, b1) in placed:
+            if a0 < x1 and a1 > x0 and b1 <= y0 and b1 > floor:
+                floor = b1
+        if floor < y0:
+            y0 = floor
+            continue
+        # (2) slide left at constant height
+        wall = 0          # left-most admissible x0 given walls / blockers
+        blocker = False
+        edge = -1         # x0 at which our right edge meets a support's left
+        for (a0, b0, a1, b1) in placed:
+            if a1 <= x0 and b0 < y1 and b1 > y0:        # beside us, left
+                if a1 > wall:
+                    wall, blocker = a1, True
+            elif b1 == y0 and a0 < x1 and a1 > x0:      # we rest on it
+                if a0 - w > edge:
+                    edge = a0 - w
+        target = max(wall, edge)
+        if target >= x0:
+            break  # no movement possible at all
+        if edge > wall:
+            stats["support_stop"] = stats.get("support_stop", 0) + 1
+        elif blocker:
+            stats["blocker_stop"] = stats.get("blocker_stop", 0) + 1
+        else:
+            stats["wall_stop"] = stats.get("wall_stop", 0) + 1
+        x0 = target
+    if y0 + h > H or x0 + w > W or x0 < 0:
+        return None
+    return x0, y0
+
+
+def model_decode(W: int, H: int, items: list[list[int]], x: list[int],
+                 enc: int) -> tuple[list[list[int]], int, dict[str, int]]:
+    """The packing prescribed by the documentation of the two encodings.
+
+    ``enc == 1``: an item that does not fit the bin opened last opens a new
+    bin (next fit). ``enc == 2``: all open bins are tried, first bin first.
+    Returns (rows in processing order, number of bins, statistics).
+    """
+    if enc not in (1, 2):
+        raise ValueError(enc)
+    bins: list[list[tuple[int, int, int, int]]] = [[]]
+    rows: list[list[int]] = []
+    stats: dict[str, int] = {}
+    for v in x:
+        iid = abs(v)
+        w, h = items[iid - 1][0], items[iid - 1][1]
+        if v < 0:
+            w, h = h, w
+        if w > W or h > H:  # does not fit in this orientation: forced turn
+            w, h = h, w
+            stats["forced_rotation"] = stats.get("forced_rotation", 0) + 1
+        if w > W or h > H:
+            raise ValueError(f"item {iid} fits the bin in no orientation")
+        candidates = range(len(bins)) if enc == 2 else [len(bins) - 1]
+        done = False
+        for b in candidates:
+            trial: dict[str, int] = {}
+            pos = _drop(bins[b], W, H, w, h, trial)
+            if pos is not None:
+                for k, c in trial.items():
+                    stats[k] = stats.get(k, 0) + c
+                bins[b].append((pos[0], pos[1], pos[0] + w, pos[1] + h))
+                rows.append([iid, b + 1, pos[0], pos[1], pos[0] + w,
+                             pos[1] + h])
+                if b + 1 < len(bins):
+                    stats["earlier_bin"] = stats.get("earlier_bin", 0) + 1
+                done = True
+                break
+        if not done:
+            bins.append([(0, 0, w, h)])
+            rows.append([iid, len(bins), 0, 0, w, h])
+    return rows, len(bins), stats
+
+
+# ----------------------------------------------------------------------------
+# direct definitions of the seven objective functions (C02)
+# ----------------------------------------------------------------------------
+
+OBJECTIVES = ("binCount", "binCountAndLastEmpty", "binCountAndEmpty",
+              "binCountAndLastSmall", "binCountAndSmall",
+              "binCountAndLastSkyline", "binCountAndLowestSkyline")
+
+
+def skyline_area(rects: list[tuple[int, int, int, int]], W: int) -> int:
+    """Area under the skyline: per column the top edge of the highest box.
+
+    Column-wise definition: cut [0, W) at every left/right edge; inside one
+    interval the set of boxes covering it is constant, the skyline there is
+    the maximum of their top edges (0 if no box covers the interval).
+    """
+    cuts = sorted({0, W} | {r[0] for r in rects} | {r[2] for r in rects})
+    area = 0
+    for a, b in zip(cuts, cuts[1:]):
+        if a < 0 or b > W:
+            continue
+        top = 0
+        for (x0, _y0, x1, y1) in rects:
+            if x0 <= a and b <= x1 and y1 > top:
+                top = y1
+        area += (b - a) * top
+    return area
+
+
+def bin_summary(W: int, rows: list[list[int]]) -> dict[int, dict[str, int]]:
+    """Per bin: number of items, covered area, area under the skyline."""
+    per: dict[int, list[tuple[int, int, int, int]]] = {}
+    for (_iid, b, x0, y0, x1, y1) in rows:
+        per.setdefault(b, []).append((x0, y0, x1, y1))
+    return {b: {"count": len(rs),
+                "area": sum((r[2] - r[0]) * (r[3] - r[1]) for r in rs),
+                "skyline": skyline_area(rs, W)}
+            for b, rs in per.items()}
+
+
+def objectives(W: int, H: int, rows: list[list[int]]) -> dict[str, int]:
+    """The documented values of the seven objectives for a feasible packing.
+
+    k = number of bins; n = number of items; A = W*H. binCount = k; the
+    others are (k-1)*scale + t with scale n (item counts) or A (areas) and
+    t = count / covered area / skyline area of the last bin, or the minimum
+    of that quantity over all bins.
+    """
+    summ = bin_summary(W, rows)
+    k = len(summ)
+    last = max(summ)
+    n = len(rows)
+    A = W * H
+    return {
+        "binCount": k,
+        "binCountAndLastEmpty": (k - 1) * n + summ[last]["count"],
+        "binCountAndEmpty": (k - 1) * n + min(
+            s["count"] for s in summ.values()),
+        "binCountAndLastSmall": (k - 1) * A + summ[last]["area"],
+        "binCountAndSmall": (k - 1) * A + min(
+            s["area"] for s in summ.values()),
+        "binCountAndLastSkyline": (k - 1) * A + summ[last]["skyline"],
+        "binCountAndLowestSkyline": (k - 1) * A + min(
+            s["skyline"] for s in summ.values()),
+    }
